@@ -190,6 +190,27 @@ def borrowedRaisesAsIs (w h : HeadInfo) : Bool :=
   | some b, some a => a != b && !h.owns
   | _, _ => false
 
+/-- outcome of one co-winner step of the source as it is -/
+inductive StepRes where
+  | ok (t : ActTbl)
+  | valueError      -- `list.index`: the uid is not in `action_uids`
+  | keyError        -- `state.actions[uid]` / `del state.actions[uid]`: the uid is not in `state.actions`
+deriving DecidableEq, Repr
+
+/-- The co-winner branch of the source AS IT IS, with its three look-ups that can raise:
+    `state.actions[winning_event.action_uid]` (inside the context loop, only when the competing flow holds a reference),
+    `competing_flow_state.action_uids.index(competing uid)` (`ValueError` when the flow does not own the action) and
+    `del state.actions[competing uid]` (`KeyError` when it is gone).  (The uid-equality guard of the first repair is in.) -/
+def cowinStepAsIs (w h : HeadInfo) (t : ActTbl) : StepRes :=
+  match w.act, h.act with
+  | some b, some a =>
+    if a = b then .ok t
+    else if h.nrefs > 0 && (scopeOf b t).isNone then .keyError
+    else if !h.owns then .valueError
+    else if (scopeOf a t).isNone then .keyError
+    else .ok (del a (incr b h.nrefs t))
+  | _, _ => .ok t
+
 /-- the co-winner branch of the unpatched source -/
 def cowinEffectAsIs (w h : HeadInfo) (t : ActTbl) : ActTbl :=
   match w.act, h.act with
